@@ -10,6 +10,7 @@ theorem display_eq (fmt : F → String) (s : StandardDeviation F) :
 
 theorem default_eq : (default_ : Option (StandardDeviation F)) = some (fresh 9) := by
   unfold default_
+  try simp only [gen_helper]
   rw [new_eq]
   simp [unwrap, isizeMax]
 
